@@ -475,49 +475,19 @@ def r56(facts, res, R='R5.6'):
     if len(fs) != 1:
         return res.lost(R, 'apply_repairs not found')
     c = fs[0]
-    loops = c.loops()
-    hs = [h for h in loops if any('ParseRepair' in ((callee_of(t).get('self_ty') or '') + str(callee_of(t).get('args') or '')) for bb, t in c.calls_named('next', loops[h]))]
-    if len(hs) != 1:
-        return res.lost(R, 'apply_repairs has not one loop over the repairs (found %d)' % len(hs))
-    h = hs[0]
     pr = facts.adt('lrpar::parser::ParseRepair')
     vn = {v['discr']: v['name'] for v in pr['variants']}
     from lrstep import widening_walker, loop_assigned
-    w = widening_walker(c, facts, max_paths=256)
-    w.widen_headers = set(loops)
-    w.widen_assigned = {x: loop_assigned(c, x) for x in w.widen_headers}
     seen = {}
-    for p in w.run(h, stop=lambda x: x not in loops[h]):
-        if p.end != ('loop', h):
-            continue
-        poss = set(vn)
-        hit = False
-        for cd, v in p.conds:
-            if cd[0] != 'discr' or is_call(strip_ref(cd[1]), 'next') or not term_has(cd[1], lambda x: is_call(x, 'next')):
-                continue
-            hit = True
-            if isinstance(v, int):
-                poss &= {v}
-            elif isinstance(v, tuple) and v[0] == 'ne':
-                poss -= set(v[1])
-        if not hit or len(poss) != 1:
-            continue
-        kind = vn[next(iter(poss))]
-        # the running index: the usize parameter the loop carries
-        idx = [(k, v) for k, v in p.env.items() if isinstance(k[0], int) and not k[1] and c.lty(k[0]) == 'usize' and 1 <= k[0] <= c.arg_count]
-        if len(idx) != 1:
-            seen[kind] = 'cannot identify the running input index'
-            continue
-        (ik, after) = idx[0]
-        before = None
-        ups = p.calls(name='lr_upto')
-        probs = []
 
-        def is_before(t):
-            return isinstance(t, tuple) and t[0] == 'widen' and t[3] == ik[0]
-
+    def judge(kind, p, is_before, after):
         def is_plus1(t):
             return isinstance(t, tuple) and t[0] == 'bin' and t[1] == 'Add' and is_before(t[2]) and t[3] == ('const', 1)
+
+        def show(t):
+            return 'index' if is_before(t) else 'index + 1' if is_plus1(t) else fmt_term(t)[:40]
+        ups = p.calls(name='lr_upto')
+        probs = []
         if kind == 'Delete':
             if ups:
                 probs.append('a Delete parses something')
@@ -529,8 +499,6 @@ def r56(facts, res, R='R5.6'):
             else:
                 a = ups[0][3]
                 lex, st, en = a[1], a[2], a[3]
-                def show(t):
-                    return 'index' if is_before(t) else 'index + 1' if is_plus1(t) else fmt_term(t)[:40]
                 if not is_before(st) or not is_plus1(en):
                     probs.append('the parse does not run over exactly [index, index + 1) (it runs over [%s, %s))' % (show(st), show(en)))
                 if kind == 'Insert':
@@ -543,16 +511,66 @@ def r56(facts, res, R='R5.6'):
                         probs.append('a Shift parses a synthesised lexeme instead of the input')
                     if not (is_call(after, 'lr_upto')):
                         probs.append('the input index does not continue from where the parse of the shifted lexeme ended')
-        seen[kind] = '; '.join(probs)
+        old = seen.get(kind)
+        seen[kind] = '; '.join(probs) if not old else old
+
+    def kind_of(conds, is_elem):
+        poss = set(vn)
+        hit = False
+        for cd, v in conds:
+            if cd[0] != 'discr' or not is_elem(cd[1]):
+                continue
+            hit = True
+            if isinstance(v, int):
+                poss &= {v}
+            elif isinstance(v, tuple) and v[0] == 'ne':
+                poss -= set(v[1])
+        return [vn[x] for x in sorted(poss)] if hit else []
+
+    loops = c.loops()
+    hs = [h for h in loops if any('ParseRepair' in ((callee_of(t).get('self_ty') or '') + str(callee_of(t).get('args') or '')) for bb, t in c.calls_named('next', loops[h]))]
+    folds = [cb for cb in facts.closures_of(c, recursive=False) if cb.arg_count == 3 and cb.lty(2) == 'usize' and 'ParseRepair' in cb.lty(3) and cb.calls_named('lr_upto')]
+    where = loc_of(c)
+    if len(hs) == 1:
+        h = hs[0]
+        where = loc_of(c, h)
+        w = widening_walker(c, facts, max_paths=256)
+        w.widen_headers = set(loops)
+        w.widen_assigned = {x: loop_assigned(c, x) for x in w.widen_headers}
+        for p in w.run(h, stop=lambda x: x not in loops[h]):
+            if p.end != ('loop', h):
+                continue
+            ks = kind_of(p.conds, lambda t: not is_call(strip_ref(t), 'next') and term_has(t, lambda x: is_call(x, 'next')))
+            if len(ks) != 1:
+                continue
+            idx = [(k, v) for k, v in p.env.items() if isinstance(k[0], int) and not k[1] and c.lty(k[0]) == 'usize' and 1 <= k[0] <= c.arg_count]
+            if len(idx) != 1:
+                seen[ks[0]] = 'cannot identify the running input index'
+                continue
+            (ik, after) = idx[0]
+            judge(ks[0], p, lambda t, ik=ik: isinstance(t, tuple) and t[0] == 'widen' and t[3] == ik[0], after)
+    elif not hs and len(folds) == 1 and c.calls_named('fold'):
+        # repairs.iter().fold(index, |index, repair| next index): one call of the closure is one round
+        cb = folds[0]
+        where = loc_of(cb)
+        for p in Walker(cb, facts, max_paths=256).run():
+            if p.end[0] != 'return':
+                continue
+            ks = kind_of(p.conds, lambda t: term_has(t, lambda x: x == ('param', 3)))
+            # a path may cover several kinds only if it treats them alike
+            for k in ks if len(ks) < len(vn) else []:
+                judge(k, p, lambda t: t == ('param', 2), p.end[1])
+    else:
+        return res.lost(R, 'apply_repairs has neither one loop over the repairs nor one fold over them (loops: %d, fold closures: %d)' % (len(hs), len(folds)))
     for kind in ('Insert', 'Delete', 'Shift'):
         key = 'replay:' + kind
         if kind not in seen:
-            res.bad(R, key, loc_of(c, h), 'no round of the replay loop handles ParseRepair::%s' % kind)
+            res.bad(R, key, where, 'no round of the replay handles ParseRepair::%s' % kind)
         elif seen[kind]:
-            res.bad(R, key, loc_of(c, h), 'replaying a %s: %s' % (kind, seen[kind]))
+            res.bad(R, key, where, 'replaying a %s: %s' % (kind, seen[kind]))
         else:
-            res.ok(R, key, loc_of(c, h), {'Insert': 'parses Some(new faulty lexeme) over [i, i+1), index unchanged', 'Delete': 'index + 1, nothing parsed',
-                                           'Shift': 'parses the input over [i, i+1), index := where that parse ended'}[kind])
+            res.ok(R, key, where, {'Insert': 'parses Some(new faulty lexeme) over [i, i+1), index unchanged', 'Delete': 'index + 1, nothing parsed',
+                                   'Shift': 'parses the input over [i, i+1), index := where that parse ended'}[kind])
 
 
 def run(facts, res):
